@@ -23,6 +23,7 @@ func (rr *SIG) Sign(k crypto.Signer, m *Msg) ([]byte, error) {
 
 	rr.Hdr = RR_Header{Name: ".", Rrtype: TypeSIG, Class: ClassANY, Ttl: 0}
 	rr.OrigTtl, rr.TypeCovered, rr.Labels = 0, 0, 0
+	rr.Signature = "" // a SIG that has signed before still carries that signature
 
 	mbuf, err := m.Pack()
 	if err != nil {
